@@ -35,7 +35,6 @@ from .engine import Inconclusive
 from .roles import Roles
 from .opfacts import Unit
 from . import prov as P
-from .c12 import lookup_role
 
 VALUE = "serde_json::Value"
 CLONE = "<serde_json::Value as std::clone::Clone>::clone"
@@ -44,19 +43,170 @@ DIRECT_INDEX = re.compile(r"^core::slice::<impl \[T\]>::(get|get_mut|first|last|
 MAP_ITER = re.compile(r"^serde_json::Map::<.*>::(iter|iter_mut|keys|values|values_mut|into_iter|entry|retain|remove|contains_key)$|serde_json::Map<.*> as std::iter::IntoIterator>::into_iter$")
 
 
+def lookup_role(ctx, facts, roles):
+    """The shared lookup, by role: the one local function var hands the data and the typed key to and whose
+    Option<Value> answer it turns into its result.  Returns (body, data parameter, key parameter, key ADT)."""
+    items = facts.items
+    vb, _ = roles.fn_of("var")
+    cands = {}
+    for b in roles.unit(vb.key):
+        for bi, t in b.calls():
+            c = callee_of(t)
+            if c and c.get("local") and items.get(c["key"], {}).get("output") == "std::option::Option<serde_json::Value>":
+                cands.setdefault(c["key"], []).append((b, bi))
+    if len(cands) != 1:
+        raise Inconclusive("shared lookup (data, key) → Option<Value> called by var not identified (%d candidates)" % len(cands))
+    lookup = facts.body(list(cands)[0])
+    ins = items[lookup.key].get("inputs", [])
+    dps = [i + 1 for i, t in enumerate(ins) if t == "&serde_json::Value"]
+    kps = [i + 1 for i, t in enumerate(ins) if t != "&serde_json::Value" and lookup.locals[i + 1].get("adt") and facts.adts.get(lookup.locals[i + 1]["adt"], {}).get("variants")]
+    if len(ins) != 2 or len(dps) != 1 or len(kps) != 1:
+        raise Inconclusive("shared lookup %s: parameters (data, key) not recognised: %s" % (lookup.key, ins))
+    return lookup, dps[0], kps[0], lookup.locals[kps[0]]["adt"]
+
+
+def _is_ctor(c):
+    return bool(c) and "{constructor#" in (c.get("key") or "")
+
+
+def composed_cases(facts, body, known=None, env=None, depth=0, stack=()):
+    """Decision cases of `body` (rules/optnorm.py) with the crate's own helper functions in result position read
+    through: a case whose value is (a constructor around) a call of a local function is replaced by that function's
+    cases, its parameters bound to the caller's argument expressions — so `known` and the atoms stay in the caller's
+    terms.  A helper that cannot be summarised is left as the call it is.  Returns [(conds, value)] or None."""
+    from . import optnorm
+    cs = optnorm.decision_cases(facts, body, known=known, env=env)
+    if cs is None:
+        return None
+    out = []
+
+    def expand(v, d):
+        x = strip_refs(v)
+        if x[0] == "agg" and x[1].get("agg") == "Adt" and len(x[2]) == 1:
+            sub = expand(x[2][0], d)
+            if len(sub) == 1 and not sub[0][0]:
+                return [({}, x if sub[0][1] is x[2][0] else ("agg", x[1], [sub[0][1]]))]
+            return [(c2, ("agg", x[1], [v2])) for c2, v2 in sub]
+        if x[0] == "call" and x[1] and x[1].get("local") and not _is_ctor(x[1]) and d < 4 and x[1]["key"] not in stack + (body.key,):
+            cb = facts.body(x[1]["key"])
+            if cb is not None and cb.kind == "fn" and cb.arg_count == len(x[2]):
+                sub = composed_cases(facts, cb, known=known, env={i + 1: a for i, a in enumerate(x[2])}, depth=d + 1, stack=stack + (body.key,))
+                if sub is not None:
+                    return [(dict(c2), v2) for c2, v2 in sub]
+        return [({}, x)]
+    for conds, v, _p in cs:
+        for c2, v2 in expand(v, depth):
+            cc = dict(conds)
+            clash = False
+            for k, val in c2.items():
+                if k in cc and cc[k] != val:
+                    clash = True
+                cc[k] = val
+            if not clash:
+                out.append((cc, v2))
+    return out
+
+
+def key_typing(ctx, facts, roles, key_adt, cfg, K="K1"):
+    """K1 — which JSON kinds become which key kinds, read off the decision cases of every conversion Value → key
+    (helpers of the conversions read through): a table kind → {outcome}, the integer key being the payload of as_i64
+    of the number and the string key carrying the string's own text."""
+    items = facts.items
+    fam = [b for b in facts.fns() if b.kind == "fn" and items.get(b.key, {}).get("output", "").startswith("std::result::Result<%s" % key_adt) and items[b.key].get("inputs") in (["serde_json::Value"], ["&serde_json::Value"])]
+    famk = {b.key for b in fam}
+    cg, _ = facts.callgraph()
+    callers = {}
+    for k, cs in cg.items():
+        root = k.split("::{closure#")[0]
+        for c in cs:
+            callers.setdefault(c, set()).add(root)
+    # conversions proper: used from outside the family (or not at all); the others are their helpers
+    top = [b for b in fam if not (callers.get(b.key, set()) - {b.key}) or (callers.get(b.key, set()) - famk)]
+    ctx.floor("KeyType conversions (%s)" % cfg, len(top), 1)
+    want = {"Null": {"OK(Null)"}, "String": {"OK(String)"}, "Number": {"OK(Number)", "ERR"}, "Bool": {"ERR"}, "Array": {"ERR"}, "Object": {"ERR"}}
+    mats = []
+    for cb in top:
+        m = {}
+        for v in facts.variants(VALUE):
+            cases = composed_cases(facts, cb, known=lambda pe, adt, _v=v: _v if (adt == VALUE and strip_refs(pe) == ("arg", 1)) else None)
+            key = "%s: %s key (%s)" % (cb.key.split("::", 1)[1], v, cfg)
+            if cases is None:
+                ctx.unread(K + ".key-typing", key, "the conversion has loops or too many paths to summarise", where=cb.where(), fn=cb.key)
+                m[v] = None
+                continue
+            got = set()
+            for conds, val in cases:
+                got.add(_key_outcome(val, conds, key_adt))
+            m[v] = got
+            unk = {g for g in got if g.startswith("?")}
+            if unk and (got - unk) <= want[v]:
+                ctx.unread(K + ".key-typing", key, "a %s key is typed as %s — not a form the rule reads" % (v, sorted(got)), where=cb.where(), fn=cb.key)
+                m[v] = None
+            else:
+                ctx.check(got == want[v], K + ".key-typing", key, "a %s key is typed as %s; expected %s" % (v, "+".join(sorted(got)), "+".join(sorted(want[v]))), where=cb.where(), fn=cb.key, nontrivial=True,
+                          sample={"conversion": cb.key, "kind": v, "outcome": sorted(got)})
+        mats.append((cb, m))
+    if len(mats) >= 2 and all(x is not None for _, m in mats for x in m.values()):
+        ctx.check(all(m == mats[0][1] for _, m in mats), K + ".key-siblings", "the KeyType conversions agree (%s)" % cfg, "the conversions from Value and &Value type keys differently", where=top[0].where(), nontrivial=True)
+
+
+SAME_PAYLOAD = re.compile(r"^std::option::Option::<T>::(ok_or|ok_or_else|copied|cloned|as_ref|as_deref|or|or_else)$|^std::result::Result::<T, E>::(ok|map_err|as_ref|or_else)$|as std::ops::Try>::branch$")
+
+
+def payload_source(e):
+    """The Option/Result-valued expression whose Some/Ok payload `e` (a payload placeholder or a `(x as Some).0`
+    projection) is, looking through the plumbing that hands a payload on unchanged (`ok_or_else`, `ok`, `?`, …)."""
+    x = strip_refs(e)
+    for _ in range(12):
+        if x[0] == "payload":
+            x = strip_refs(x[2])
+        elif x[0] == "field" and x[2] == 0 and x[1][0] == "downcast" and x[1][2] in ("Some", "Ok", "Continue"):
+            x = strip_refs(x[1][1])
+        elif x[0] == "call" and x[1] and SAME_PAYLOAD.search(x[1]["path"]) and x[2]:
+            x = strip_refs(x[2][0])
+        else:
+            break
+    return x
+
+
+def _key_outcome(val, conds, key_adt):
+    v = strip_refs(val)
+    if v[0] == "call" and v[1] and "from_residual" in v[1]["path"]:
+        return "ERR"
+    if v[0] == "agg" and v[1].get("variant") == "Err":
+        return "ERR"
+    if not (v[0] == "agg" and v[1].get("variant") == "Ok" and v[2]):
+        return "?" + show_expr(v)[:60]
+    k = strip_refs(v[2][0])
+    if k[0] == "agg" and k[1].get("adt") == key_adt:
+        var, ops = k[1].get("variant"), k[2]
+    elif k[0] == "call" and _is_ctor(k[1]):
+        var, ops = k[1]["path"].rsplit("::", 1)[1], k[2]
+    else:
+        return "?OK(%s)" % show_expr(k)[:60]
+    if var == "String":
+        own = ops and expr_mentions(ops[0], lambda x: x[0] == "downcast" and x[2] == "String" and strip_refs(x[1]) == ("arg", 1))
+        return "OK(String)" if own else "OK(String of %s)" % (show_expr(ops[0])[:50] if ops else "nothing")
+    if var == "Number":
+        o = strip_refs(ops[0]) if ops else ("none",)
+        src = payload_source(o) if o[0] == "payload" else None
+        via = src is not None and src[0] == "call" and src[1] and src[1]["path"] == "serde_json::Number::as_i64" and expr_mentions(src[2][0], lambda x: x[0] == "downcast" and x[2] == "Number" and strip_refs(x[1]) == ("arg", 1))
+        return "OK(Number)" if via else "OK(Number of %s)" % show_expr(o)[:50]
+    return "OK(%s)" % var
+
+
 def run(ctx):
     ctx.explanation = __doc__
-    ctx.rule = "instances = 2×6 key-typing cases, index-helper call sites, forbidden-call scans of the lookup's reach, default-selection facts, per-segment step matrix; non-trivial = specialisation / def-use"
+    ctx.rule = "instances = 6 key-typing cases per conversion, index-helper call sites and decision cases, forbidden-call scans of the lookup's reach, default-selection cases, per-case step table of the path walk; non-trivial = decision cases / def-use"
     ctx.trusted = ["str::chars / Vec<char> indexing is by Unicode scalar value", "serde_json::Map::get is exact-key lookup"]
     cfgs = ["default"] if ctx.tier == "quick" else ["default", "python", "wasm"]
     for cfg in cfgs:
         facts = ctx.facts(cfg)
         roles = Roles(facts)
-        lookup = lookup_role(roles)
-        key_adt = lookup.locals[2]["adt"]
+        lookup, DP, KP, key_adt = lookup_role(ctx, facts, roles)
+        DATA = ("arg", DP)
         items = facts.items
         # ---------------- K1
-        from .c12 import key_typing
         key_typing(ctx, facts, roles, key_adt, cfg, "K1")
 
         # ---------------- K2
